@@ -143,12 +143,16 @@ def regions(desc, value, ctx=None):
         return any(_ftype(f) == "Attributes" for f in all_fields(name))
 
     def has_content(c, v):
-        for (_, x), f in zip(v["fields"], all_fields(v["obj"])):
+        fs = all_fields(v["obj"])
+        # a class with a text var: only its character data counts (child elements next to a text var
+        # are outside every fragment, `ctx_expected`)
+        simple = any(_ftype(f) == "Text" for f in fs)
+        for (_, x), f in zip(v["fields"], fs):
             typ = _ftype(f)
             if typ == "Text":
                 if x is not None and not (isinstance(x, dict) and "list" in x and not x["list"]):
                     return True
-            elif typ == "Element" and emits_child(f, x):
+            elif typ == "Element" and not simple and emits_child(f, x):
                 return True
         return False
 
